@@ -12,8 +12,9 @@ import subprocess
 import threading
 from multiprocessing import Pool
 
-NAMES = ["a", "d/b", ".copiarc", "with space/q'uote", "d\\b", "raw\udcff.bin", "d", "d.txt"]          # 'd\\b' is ONE component containing a backslash; the last name is the byte string b'raw\\xff.bin' (not UTF-8); 'd' is a FILE named like the directory of 'd/b' (one tree never holds both); 'd.txt' sorts BEFORE 'd/b' as a string and AFTER it as a path
-CONTENT = {1: b"one-" * 50 + b"\n", 2: b"two!" * 700 + b"\n" + b"\0" * 140_000, 3: b"", 4: b"four" * 20000}
+NAMES = ["a", "d/b", ".copiarc", "with space/q'uote", "d\\b", "raw\udcff.bin", "d", "d.txt", "a.conflict-0da8ee51c1f8"]          # 'd\\b' is ONE component containing a backslash; the last name is the byte string b'raw\\xff.bin' (not UTF-8); 'd' is a FILE named like the directory of 'd/b' (one tree never holds both); 'd.txt' sorts BEFORE 'd/b' as a string and AFTER it as a path; the last name is what a conflict-copy of content 5 on 'a' would be called - an ordinary file when a client owns one (scripted histories only)
+CONTENT = {1: b"one-" * 50 + b"\n", 2: b"two!" * 700 + b"\n" + b"\0" * 140_000, 3: b"", 4: b"four" * 20000,
+           5: b"five, owned by one client\n" * 3}          # content 5 appears in one scripted history only
 BY_BYTES = {v: k for k, v in CONTENT.items()}
 CFG = {}
 
@@ -36,6 +37,9 @@ def _env(extra=None):
     if extra:
         e.update(extra)
     return e
+
+
+CONF_NAME = "a.conflict-0da8ee51c1f8"
 
 
 def consistent(tree, rng=None):
@@ -114,6 +118,9 @@ SCRIPTS = [
     [(0, {"d/b": 1, "a": 1}), (1, {"d": 2, "a": 1, ".copiarc": 3}), (1, {"a": 1, ".copiarc": 3})],
     [(0, {"d": 1}), (1, {"d/b": 2, "a": 3}), (1, {"a": 3})],
     [(0, {"d/b": 2}), (1, {"a": 2, "d": 2, "with space/q'uote": 1}), (0, {"d/b": 2, "a": 3})],
+    # one client owns a file named like a conflict-copy; another then commits that very content at the plain path (and again
+    # after a change): the first client's file is a hub file at another path, untouched
+    [(0, {CONF_NAME: 5, ".copiarc": 1}), (1, {"a": 5}), (1, {"a": 1}), (1, {"a": 5, "d.txt": 2})],
 ]
 
 
@@ -141,6 +148,8 @@ def run_history(job):
     shutil.rmtree(hub, ignore_errors=True)
     os.makedirs(hub)
     locs = [consistent([rng.choice([0, 1, 2, 3, 4 if rng.random() < 0.2 else 2]) for _ in NAMES], rng) for _ in range(2)]
+    for t in locs:
+        t[NAMES.index(CONF_NAME)] = 0          # (random trees never hold it: a real conflict-copy of that name would be told apart by a suffix)
     recs = []
     for step in range(len(script) if script else length):
         c = rng.randrange(2)
@@ -148,7 +157,7 @@ def run_history(job):
             c = script[step][0]
             locs[c] = _tree_of(script[step][1])
         elif rng.random() < 0.4:
-            i = rng.randrange(len(NAMES))
+            i = rng.randrange(len(NAMES) - 1)
             locs[c][i] = rng.choice([0, 1, 2, 3])
             locs[c] = consistent(locs[c], rng)
         local = os.path.join(d, f"local{c}")
@@ -177,7 +186,7 @@ def race(job):
     hub0 = [rng.choice([0, 1]) for _ in NAMES]
     write_tree(hub, hub0)
     # (the name the wire cannot carry makes a client refuse to start: it is left to the sequential runs)
-    sendable = [i for i, n in enumerate(NAMES) if n.isprintable() and "\udcff" not in n and n != "d"]
+    sendable = [i for i, n in enumerate(NAMES) if n.isprintable() and "\udcff" not in n and n != "d" and n != CONF_NAME]
     hub0 = [c if i in sendable else 0 for i, c in enumerate(hub0)]
     write_tree(hub, hub0)
     la = [rng.choice([0, 2, 2, 4]) if i in sendable else 0 for i, _ in enumerate(NAMES)]
